@@ -1,5 +1,6 @@
-// GENERATED on every run by vlib/extract.py from /tmp/refcheck-18294 -- do not edit
+// GENERATED on every run by vlib/extract.py from /tmp/clean0 -- do not edit
 #![allow(unused_imports, unused_variables, unused_mut, dead_code, unused_parens, unused_braces, non_snake_case)]
+#![feature(allocator_api)]
 use vstd::prelude::*;
 use core::cmp::Ordering;
 verus! {
@@ -1183,6 +1184,67 @@ pub fn get_value<'b>(&'b self, algorithm: &str) -> (r: Option<ChecksumValue<'b>>
         }
 {
         x_hm_get(&self.algorithms, algorithm).map(|v: &'b Cow<'_, str>| -> (cv: ChecksumValue<'b>) ensures cv.0@ == v@ { ChecksumValue(v) })
+    }
+}
+// ---- unit stub.hex  <= (contracts):0 ----
+
+// R9: stubs of hex::FromHex / hex::ToHex (dependency contracts, assumed; the round trip decode(encode(b)) == b is exercised by B)
+pub trait FromHex: Sized {
+    type Error;
+    spec fn from_hex_rel(text: Seq<char>, r: Result<Self, Self::Error>) -> bool;
+    fn from_hex(hex: &str) -> (r: Result<Self, Self::Error>)
+        ensures Self::from_hex_rel(hex@, r);
+}
+pub trait ToHex {
+    spec fn hex_text(&self) -> Seq<char>;
+    fn encode_hex(&self) -> (r: String)
+        ensures r@ == self.hex_text();
+}
+
+impl<'a> ChecksumValue<'a> {
+// ---- unit U-ckval.raw  <= purl/src/qualifiers/well_known.rs:247 ----
+pub fn raw(&self) -> (r: &'a str)
+        ensures r@ == self.0@
+{
+        self.0
+    }
+// ---- unit U-ckval.decode  <= purl/src/qualifiers/well_known.rs:254 ----
+pub fn decode<T>(&self) -> (r: Result<T, T::Error>)
+where T: FromHex,
+        ensures T::from_hex_rel(self.0@, r)
+{
+        T::from_hex(self.0)
+    }
+}
+impl Checksum<'_> {
+// ---- unit U-ckacc.get_raw  <= purl/src/qualifiers/well_known.rs:164 ----
+pub fn get_raw<'b>(&'b self, algorithm: &str) -> (r: Option<&'b str>)
+        ensures match r {
+            Some(v) => self.entries().contains_key(algorithm@) && v@ == self.entries()[algorithm@],
+            None => !self.entries().contains_key(algorithm@),
+        }
+{
+        self.get_value(algorithm).map(|v: ChecksumValue<'b>| -> (s: &'b str) ensures s@ == v.0@ { v.raw() })
+    }
+// ---- unit U-ckacc.get  <= purl/src/qualifiers/well_known.rs:171 ----
+pub fn get<T>(&self, algorithm: &str) -> (r: Result<Option<T>, T::Error>)
+where T: FromHex,
+        ensures
+            // absent: nothing to decode
+            !self.entries().contains_key(algorithm@) ==> r is Ok && r->Ok_0 is None,
+            // present: exactly one decoding of the stored text, its outcome passed through
+            self.entries().contains_key(algorithm@) ==> exists|x: Result<T, T::Error>| #[trigger] T::from_hex_rel(self.entries()[algorithm@], x)
+                && match x { Ok(t) => r == Ok::<Option<T>, T::Error>(Some(t)), Err(e) => r == Err::<Option<T>, T::Error>(e) }
+{
+        self.get_value(algorithm).map(|v: ChecksumValue<'_>| -> (x: Result<T, T::Error>) ensures T::from_hex_rel(v.0@, x) { v.decode() }).transpose()
+    }
+// ---- unit U-ckacc.insert  <= purl/src/qualifiers/well_known.rs:205 ----
+pub fn insert<T>(&mut self, algorithm: &str, value: T) where T: ToHex,
+        requires keys_lower(old(self).entries())
+        // C12: stored under the lower-cased algorithm as the hex text of the value
+        ensures final(self).entries() == old(self).entries().insert(lower_seq(algorithm@), value.hex_text()), keys_lower(final(self).entries())
+{
+        self.insert_raw(algorithm, value.encode_hex())
     }
 }
 
